@@ -112,11 +112,22 @@ func Build(t *core.T) *Built {
 	if s.Chance(1, 10, "manytasks") {
 		nt = s.Range(9, 32, "nt")
 	}
+	limits := map[float64][]float64{} // callers keep one options slice per limit and pass it to every query that uses it
 	for i := 0; i < nt; i++ {
 		s.Begin("task")
 		var qs []*qt.Query
 		s.Repeat(1, 2, 8, "query", func(int) {
 			q := b.W.DrawQuery(s, -1)
+			if q.F != nil && len(b.Model.Live) > 150 {
+				q.F.Reenter = false // nested searches from inside the predicate only on small trees (steps multiply)
+			}
+			if q.Limit != nil {
+				if sl, ok := limits[q.MaxDist]; ok {
+					q.Limit = sl
+				} else {
+					limits[q.MaxDist] = q.Limit
+				}
+			}
 			if nAdd >= 600 && (q.Kind == qt.QKNearest || q.Kind == qt.QKNearestMatching) && s.Bool("scalek") {
 				q.K = []int{129, 200, 257, 700}[s.Intn(4, "kscale")] // large-k paths under concurrency
 			}
@@ -124,6 +135,16 @@ func Build(t *core.T) *Built {
 		})
 		b.Plan = append(b.Plan, qs)
 		s.End()
+	}
+	if s.Chance(1, 4, "carved-buffers") {
+		// one result array for the whole epoch, a window per k-nearest query
+		var all []*qt.Query
+		for _, qs := range b.Plan {
+			all = append(all, qs...)
+		}
+		if qt.Carve(all, 300) > 1 {
+			t.Probe("buffers_carved_from_one_array")
+		}
 	}
 	return b
 }
@@ -162,7 +183,7 @@ func Run(t *core.T) {
 			q, i, j := q, i, j
 			if t.Guard(qt.QueryNames[q.Kind], func() {
 				r := q.ExecBuf(b.Twin, prev)
-				if !r.IsOne {
+				if !r.IsOne && q.Win == nil { // (a window of the shared array is never handed back: its capacity covers other windows)
 					prev = r.Many
 				}
 				want[i][j] = r.Clone()
@@ -215,7 +236,7 @@ func Run(t *core.T) {
 		}
 	}
 	held := make([][]qt.Result, len(b.Plan)) // what each query returned, kept until the epoch is over
-	clobbered := make([][]bool, len(b.Plan))         // results the task itself handed back as a buffer
+	clobbered := make([][]bool, len(b.Plan)) // results the task itself handed back as a buffer
 	for i := range b.Plan {
 		held[i] = make([]qt.Result, len(b.Plan[i]))
 		clobbered[i] = make([]bool, len(b.Plan[i]))
@@ -235,7 +256,7 @@ func Run(t *core.T) {
 					k.Abort("panic")
 					return
 				}
-				if !got.IsOne {
+				if !got.IsOne && q.Win == nil {
 					prev, last = got.Many, j
 				}
 				t.Logf("reader%d: %v -> %v", i, q, got)
@@ -339,7 +360,7 @@ func RunRace(t *core.T) {
 					if !got.SameAs(want[i][j]) {
 						diffs[i] = append(diffs[i], diff{i: i, j: j, got: got.Clone()})
 					}
-					if !got.IsOne {
+					if !got.IsOne && q.Win == nil {
 						prev = got.Many
 					}
 				}
